@@ -81,12 +81,31 @@ pub enum Item {
     Raw { text: String, tags: Vec<String> },
 }
 
+thread_local! {
+    static ALIASES: std::cell::RefCell<BTreeMap<String, Vec<String>>> = std::cell::RefCell::new(BTreeMap::new());
+}
+
+fn expand_alias(tags: Vec<String>) -> Vec<String> {
+    let mut out = vec![];
+    ALIASES.with(|a| {
+        let a = a.borrow();
+        for t in tags {
+            if let Some(v) = a.get(&t) {
+                out.extend(v.iter().cloned());
+            } else {
+                out.push(t);
+            }
+        }
+    });
+    out
+}
+
 fn split_tags(s: &str) -> (Vec<String>, String) {
     let t = s.trim_start();
     if let Some(rest) = t.strip_prefix('[') {
         if let Some(end) = rest.find(']') {
-            let tags = rest[..end].split(',').map(|x| x.trim().to_string()).filter(|x| !x.is_empty()).collect();
-            return (tags, rest[end + 1..].trim_start().to_string());
+            let tags: Vec<String> = rest[..end].split(',').map(|x| x.trim().to_string()).filter(|x| !x.is_empty()).collect();
+            return (expand_alias(tags), rest[end + 1..].trim_start().to_string());
         }
     }
     (vec![], t.to_string())
@@ -101,6 +120,14 @@ pub fn parse_file(path: &str) -> Vec<Item> {
         let l = lines[i];
         let t = l.trim();
         if t.is_empty() || t.starts_with('#') {
+            i += 1;
+            continue;
+        }
+        if let Some(rest) = t.strip_prefix("alias ") {
+            let (n, l) = rest.split_once('=').unwrap_or_else(|| die(&format!("{}:{}: alias needs NAME = list", path, i + 1)));
+            let v: Vec<String> = l.split(',').map(|x| x.trim().to_string()).filter(|x| !x.is_empty()).collect();
+            let v = expand_alias(v);
+            ALIASES.with(|a| a.borrow_mut().insert(n.trim().to_string(), v));
             i += 1;
             continue;
         }
